@@ -222,10 +222,12 @@ func RenderEvent(e shutterevents.IEvent) string {
 		return fmt.Sprintf("shutter.eon-started|Eon=%d|ActivationBlockNumber=%d|KeyperConfigIndex=%d", x.Eon, x.ActivationBlockNumber, x.KeyperConfigIndex)
 	case *shutterevents.PolyCommitment:
 		var p []string
-		if x.Gammas != nil {
-			for _, g := range *x.Gammas {
-				p = append(p, "<"+hex.EncodeToString(g.Compress())+">")
-			}
+		if x.Gammas == nil {
+			// no list at all is not the empty list (the consumers dereference it)
+			return fmt.Sprintf("shutter.poly-commitment-registered|Sender=%s|Eon=%d|Gammas=<nil>", addr(x.Sender), x.Eon)
+		}
+		for _, g := range *x.Gammas {
+			p = append(p, "<"+hex.EncodeToString(g.Compress())+">")
 		}
 		return fmt.Sprintf("shutter.poly-commitment-registered|Sender=%s|Eon=%d|Gammas=[%s]", addr(x.Sender), x.Eon, strings.Join(p, ","))
 	case *shutterevents.PolyEval:
